@@ -29,6 +29,9 @@ CHECKS.update({
  "C03": ("exploration", "E3", "bounded-exhaustive enumeration: every response type x every result code 0..122/4096/2^31-1, and every type x matched x text x referral x control list, encoded by the independent encoder minimally and with every length field in the forms 81/82/83/84 (one at a time, all at once, and every combination for small messages), decoded by the crate's codec and result converter and compared field by field; success/non_error/equal helpers for every rc 0..255; every operation kind additionally through a pending real operation over the in-memory transport", "6 C03", BE_NOTE),
  "C06": ("model_checking", "E3+E1", "exhaustive enumeration of read partitions: one real codec instance per stream fed every partition of short streams (all 2^(L-1) for L<=18, 23 thorough), every partition into <=3 chunks of longer ones, byte-at-a-time, cuts around every message and read-buffer boundary incl. a 9000-byte message; plus explicit-state search (stateright) over byte-level delivery through the real Framed and driver; oracle: exactly the messages wholly received are surfaced, in order, and exactly their bytes are consumed", "6 C06", BE_NOTE + "; " + E1_NOTE),
 })
+CHECKS.update({
+ "C02": ("exploration", "E3", "bounded-exhaustive enumeration: every request of per-operation argument products (all 11 operations) with control lists and message-ID positions, written by the real handle and driver to the in-memory transport, decoded by the independent RFC 4511 decoder and compared with a model built from the arguments (one element, exact PDU, canonical minimal encoding); every history of length <=2 (3 thorough) over 9 operation kinds x 8 modifier subsets against a reactive server on a virtual clock: a modifier affects exactly the next operation invoked", "6 C02", BE_NOTE),
+})
 NA = {}
 import os
 props=[json.loads(l) for l in open('/verif/properties.jsonl')]
